@@ -197,6 +197,23 @@ def asg_structural_contracts():
                     am = re.search(r'\(\s*&self\s*\)\s*->\s*&\s*([\w:<>\[\] ,]+)$', sig)
                     if am and not am.group(1).startswith('[') and am.group(1) != 'str' and normalise_code(am.group(1)) == normalise_code(fs[fn]):
                         out[q] = dict(ret='r', props=['C06', 'C08', 'C09'], spec='ensures *r == self.%s,                             //@C06:accessor-returns-field' % fn)
+                    else:
+                        # ... `f(&self) -> &[T]` of a `Vec<T>` field, `-> Option<&T>` of an `Option<T>` field, `-> &str` of a `String` field,
+                        # `-> T` of a field of that very (Copy) type: the view of that field
+                        fty = normalise_code(fs[fn])
+                        rm_ = re.search(r'\(\s*&self\s*\)\s*->\s*(.+)$', sig)
+                        rty = normalise_code(rm_.group(1)) if rm_ else ''
+                        TAGF = '                             //@C06:accessor-returns-field'
+                        ms = re.fullmatch(r'&\s*\[(.+)\]', rty)
+                        mo = re.fullmatch(r'Option<\s*&\s*(.+)>', rty)
+                        if ms and fty == 'Vec<%s>' % normalise_code(ms.group(1)):
+                            out[q] = dict(ret='r', props=['C06', 'C08', 'C09'], spec='ensures r@ == self.%s@,%s' % (fn, TAGF))
+                        elif mo and fty == 'Option<%s>' % normalise_code(mo.group(1)):
+                            out[q] = dict(ret='r', props=['C06', 'C08', 'C09'], spec='ensures (r is Some) == (self.%s is Some), r is Some ==> *r->Some_0 == self.%s->Some_0,%s' % (fn, fn, TAGF))
+                        elif rty == '&str' and fty == 'String':
+                            out[q] = dict(ret='r', props=['C06', 'C08', 'C09'], spec='ensures r@ == self.%s@,%s' % (fn, TAGF))
+                        elif rty == fty and rty in ('usize', 'bool', 'u32', 'u128', 'u64'):
+                            out[q] = dict(ret='r', props=['C06', 'C08', 'C09'], spec='ensures r == self.%s,%s' % (fn, TAGF))
     return out
 
 
@@ -838,6 +855,21 @@ ensures
         && r.context.semantic_errors.included().len() == 0,                                                                   //@C11:analysis-gated-on-syntax-diagnostics
     r.syntax_result == parsed_source,
     r.context.wf() && r.context.global(),                                                                                     //@C03:only-global-scope-open''')
+    # C06: index lists and sets keep their construct and their length; a range keeps the presence of its step
+    zov.setdefault('expression_list_to_asg_type', {}).update(dict(ret='r', props=['C06', 'C03'], spec='''ensures grows(*old(context), *final(context)),
+    r.expressions@.len() == expression_list.sp_exprs().len(),     //@C06:index-list-keeps-its-length'''))
+    zov.setdefault('set_expression_to_asg_type', {}).update(dict(ret='r', props=['C06', 'C03'], spec='''ensures grows(*old(context), *final(context)),
+    set_expression.sp_expression_list() is Some ==> r.expressions@.len() == set_expression.sp_expression_list()->Some_0.sp_exprs().len(),     //@C06:set-keeps-its-length'''))
+    zov.setdefault('index_operator_to_asg_type', {}).update(dict(ret='r', props=['C06', 'C03'], spec='''ensures grows(*old(context), *final(context)),
+    // `[{a, b}]` stays a set, `[a, b]` stays a list -- each with as many entries as written
+    match index_op.sp_index_kind() {
+        Some(synast::IndexKind::SetExpression(se)) => r is SetExpression
+            && (se.sp_expression_list() is Some ==> r->SetExpression_0.expressions@.len() == se.sp_expression_list()->Some_0.sp_exprs().len()),
+        Some(synast::IndexKind::ExpressionList(el)) => r is ExpressionList && r->ExpressionList_0.expressions@.len() == el.sp_exprs().len(),
+        None => true,
+    },     //@C06:index-operator-keeps-its-construct'''))
+    zov.setdefault('range_expression_to_asg_type', {}).update(dict(ret='r', props=['C06', 'C03'], spec='''ensures grows(*old(context), *final(context)),
+    (r.step is Some) == (range_expr.sp_start_step_stop().1 is Some),     //@C06:range-keeps-its-step'''))
     for fn in ['range_expression_to_asg_type', 'set_expression_to_asg_type', 'index_operator_to_asg_type', 'expression_list_to_asg_type', 'call_expr_to_asg_texpr', 'param_type_to_type', 'io_declaration_statement_to_asg_stmt']:
         zov.setdefault(fn, {}).setdefault('spec', 'ensures grows(*old(context), *final(context)),')
     zov.setdefault('expr_to_asg_texpr', {})['ghost'] = list(zov.get('expr_to_asg_texpr', {}).get('ghost', [])) + [
@@ -865,6 +897,7 @@ ensures
 ensures
     // an expression that is present is always translated (never silently dropped)
     expr_maybe is Some ==> res is Some,                                                     //@C03,C06:expr-translated
+    expr_maybe is None ==> res is None,                                                     //@C06:expr-translated
     // ... as the graph construct of the same meaning
     expr_maybe is Some ==> expr_kind_ok(expr_maybe->Some_0, res->Some_0),                   //@C06:expression-class
     // ... typed as its construct says, an identifier with the id and the type of its symbol
